@@ -152,6 +152,22 @@ var solvers = []solverSpec{
 	}},
 }
 
+// retrySolvers: further configurations that only take part when a registered obligation
+// has failed the normal race (quantifier instantiation is sensitive to the solver's
+// random seed: a goal that z3 proves in two seconds with one seed can run into the
+// timeout with another; a valid goal must not become an alarm for that reason).
+var retrySolvers = []solverSpec{
+	{"z3-new-s2", func(file string, t int) []string {
+		return []string{"z3-new", "smt.random_seed=2", "sat.random_seed=2", fmt.Sprintf("-T:%d", t), file}
+	}},
+	{"z3-new-s5", func(file string, t int) []string {
+		return []string{"z3-new", "smt.random_seed=5", "sat.random_seed=5", fmt.Sprintf("-T:%d", t), file}
+	}},
+	{"z3-s3", func(file string, t int) []string {
+		return []string{"z3", "smt.random_seed=3", "sat.random_seed=3", fmt.Sprintf("-T:%d", t), file}
+	}},
+}
+
 func runSolver(parent context.Context, sp solverSpec, file string, timeoutS int) (status string, out string, secs float64) {
 	ctx, cancel := context.WithTimeout(parent, time.Duration(timeoutS+2)*time.Second)
 	defer cancel()
@@ -208,6 +224,13 @@ func discharge(o *Oblig, outDir string, timeoutS int, which []string, all bool) 
 			use = append(use, sp)
 			continue
 		}
+		for _, w := range which {
+			if w == sp.name {
+				use = append(use, sp)
+			}
+		}
+	}
+	for _, sp := range retrySolvers {
 		for _, w := range which {
 			if w == sp.name {
 				use = append(use, sp)
